@@ -25,7 +25,7 @@ TRUSTED = ["server reply format (DESIGN 4.4)", "exchange-function contracts (_mi
            "meta-lemma C05.simulation (history induction over per-call facts)"]
 ASSUMPTIONS = ["a faithful memcached: storage semantics, expiry and cas versions are the server's"]
 NOT_COVERED = ["get_many/gets_many/set_many results of HashClient (merge of per-server answers: C12)", "A-dict-order: that the result dict of _store_cmd enumerates its keys in insertion order is an axiom about dict, not proved",
-               "stats, cache_memlimit, raw_command results (version is covered)"]
+               "stats, raw_command results (version and cache_memlimit are covered)"]
 BUDGET = {"quick": 40, "thorough": 180}
 FILTER_BY_PROPERTY = True
 REPLAY_UNDECIDED = True
@@ -41,6 +41,7 @@ def build(E, tier):
     cm.verify_public_fetch_many(E)
     cm.verify_set_many(E)
     cm.verify_public_admin(E)
+    cm.verify_cache_memlimit(E, prop_fetch=False)      # documented: 'If no exception is raised, always returns True'
     cm.verify_fetch_many(E, names=("get", "gets"), iter_kinds=("re-iterable",))
     tables(E)
     cm.verify_client_ctor(E, "C05")
